@@ -252,9 +252,10 @@ def rule_p(ctx):
         term = [x for x in ast.walk(t) if isinstance(x, ast.Call) and isinstance(x.func, ast.Attribute)
                 and x.func.attr in ('terminate', 'kill') and A.is_name(x.func.value, ex)]
         kind = None
-        lab = label.replace('not (', '').replace('else of ', '')
+        vals = L.branch_values.get(label, [])
         for k in TERMINATE_TABLE:
-            if (k == 'False' and 'is False' in lab) or (k != 'False' and ('%r' % k) in lab):
+            # the tabled reason applies only if every backend value that reaches this branch is the tabled one
+            if vals and all((v is False) if k == 'False' else (v == k) for v in vals):
                 kind = k
         if cancels:
             nonblocking = all(isinstance(c.func.value, ast.Call) and isinstance(c.func.value.func, ast.Attribute)
